@@ -35,6 +35,14 @@ def queries():
     for q in _q({"SB_TRAINS": 2, "SB_SEG_ADDRS": 2}, "-t2a2"):
         q.tier = "thorough"; q.timeout = 1700
         qs.append(q)
+    # memory: the larger shapes need 10-20 GB each (16 at a time exhaust the 62 GB of this machine: the kernel kills them);
+    # they run at most 3 at a time, and the ones that do not fit the tier budget are stretch goals (never required)
+    for q in qs:
+        big = q.name.endswith("-mem") or q.name.endswith("-t2a2") or q.name.startswith("multiple") or q.name in ("address-2", "address-3")
+        if big:
+            q.heavy = True
+        if q.tier != "quick" and (q.name.startswith(("address-1-", "address-2-", "address-3", "multiple-")) and q.name not in ("multiple-8", "multiple-16", "address-1-mem")):
+            q.required = False; q.timeout = 900
     return qs
 
 
